@@ -571,6 +571,10 @@ def apply_season(model, name, cls, op, node):
     elif k == 'enum_lower':
         if node.is_scalar(str):
             node.set_value(str(node.get_value()).lower())
+    elif k == 'set_scalar':
+        # the object is written as one fixed scalar (op[1]: an encoded
+        # str/int/float/bool/None)
+        node.set_value(dec(op[1], None))
     elif k == 'word_to_int':
         if node.is_mapping() and node.has_attribute_type(op[1], str):
             w = node.get_attribute(op[1]).get_value()
